@@ -253,14 +253,17 @@ def run_task(modname, hid, case_idx, tier, seed, prefixes=None, split_depth=None
 
 
 def main():
-    modname, hid, case_idx, tier, seed, outfn = sys.argv[1:7]
-    prefixes = json.loads(sys.argv[7]) if len(sys.argv) > 7 else None
-    try:
-        res = run_task(modname, hid, int(case_idx), tier, int(seed), prefixes)
-    except BaseException as e:  # harness error
-        res = dict(hid=hid, case_idx=int(case_idx), fatal=''.join(traceback.format_exception(e))[-3000:])
+    """argv: module, json list of [hid, case_idx], tier, seed, out.pkl -- results are appended one by one"""
+    modname, tasks, tier, seed, outfn = sys.argv[1:6]
+    tasks = json.loads(tasks)
     with open(outfn, 'wb') as f:
-        pickle.dump(res, f)
+        for hid, case_idx in tasks:
+            try:
+                res = run_task(modname, hid, int(case_idx), tier, int(seed))
+            except BaseException as e:  # harness error
+                res = dict(hid=hid, case_idx=int(case_idx), fatal=''.join(traceback.format_exception(e))[-3000:])
+            pickle.dump(res, f)
+            f.flush()
 
 
 if __name__ == '__main__':
